@@ -68,6 +68,24 @@ GENERIC_USED = [
     "dropping the rewind (seek(0)) in Stream.__iter__",
     "closing a raw file descriptor twice",
     "renaming the temp file into place before it is closed / flushed",
+    "moving the tagging in store_object outside the pid claim",
+    "a string-method comparison that makes the multiprocessing flag always false",
+    "Stream opening non-regular files (FIFO) / dropping the isfile test",
+    "bounding the Stream read loop by a stat'ed size or a chunk counter",
+    "zip / grouper rewrites of _shard",
+    "sorting or de-duplicating the lines written back to a cid reference file; line buffering of that file",
+    "removing a stale _delete marker before renaming onto it",
+    "unbuffered (buffering=0) temp files; os.write",
+    "swallowing errors from close() of the temp file",
+    "skipping zero blocks (sparse files) when writing the temp file",
+    "lazy creation of the multiprocessing Manager lists (properties)",
+    "one-shot generators used as class-level tables",
+    "removing hashstore.yaml in the client after a failed create",
+    "accepting io.IOBase / text streams in _check_arg_data",
+    "flag-gated roll-back in _store_hashstore_refs_files",
+    "replacing the in-place cid-list rewrite by write-temp-and-rename; truncate-then-write in the add branch",
+    "dropping delete_metadata from a recovery branch of delete_object",
+    "try/except/else restructuring that loses the raise of HashStoreRefsAlreadyExists",
 ]
 
 SEED = """You are helping test a verification framework by acting as an independent "bug seeder". Work ONLY inside the git worktree {wt} (a checkout of the Python project DataONEorg/hashstore: a content-addressable file object store; source in {wt}/src/hashstore, tests in {wt}/tests). Do NOT read or touch /verif or /repo; do not look for any verification tooling. Everything you need is in the worktree.
@@ -150,6 +168,10 @@ FOCI = [
     "`hashstore.py` (the abstract interface and `HashStoreFactory`): tidy the factory (`get_hashstore`): clearer local names, early returns, f-strings, type hints, docstring fixes - with the same module / class names accepted, the same import mechanism, the same errors for unsupported names and the same object returned.",
     "emptiness checks: replace the repeated `os.path.getsize(path) == 0` tests on cid reference files by one private static helper `_is_empty_file(path)` that returns exactly `os.path.getsize(path) == 0` (no exception handling added) and use it at every such site; nothing else changes.",
     "`delete_metadata` and `delete_object`: reduce nesting - early returns, loop bodies extracted into private methods (e.g. `_delete_one_metadata_document(pid, path, objects_to_delete)`), keep the per-document claim / re-check / rename / release sequence and the order of `_delete_marked_files` / `delete_metadata` calls exactly.",
+    "`Stream`: tidy the helper class - in `__init__` test path arguments with `pathlib.Path(obj).is_file()` and open them with `open(obj, \"rb\")`; in `__iter__` use the walrus form `while data := self._obj.read(self._buffer_size): yield data`; keep the rewind before reading, the restore of a caller-owned stream's position afterwards, `close()` and the buffer-size logic exactly.",
+    "`store_object`: hold the pid claim through a small private `@contextmanager` helper `_claimed_pid(pid)` (synchronize, `try: yield`, `finally:` release) and run the store-and-validate step and the tagging inside `with self._claimed_pid(pid):`; the in-progress rejection before it, the error logging around it and everything else stay exactly as they are.",
+    "`_update_refs_file`: split the two branches into private methods `_add_ref_to_file(refs_file_path, ref_id)` and `_remove_ref_from_file(refs_file_path, ref_id)` holding exactly the current open / flock / read / write / truncate sequences; `_update_refs_file` keeps its existence check, its logging, its exception handling and dispatches on `update_type`.",
+    "`_delete_marked_files` and `_rename_path_for_deletion`: use `pathlib` consistently (`Path(obj).unlink()` inside the same try/except that logs a warning; build the `_delete` name as now), add type hints and clearer local names; `shutil.move` for the rename stays, return values (a `str`) stay.",
 ]
 
 
